@@ -1,7 +1,7 @@
 (** Evaluator glue for C18: runs the model on what the harness ran the real
     code on. *)
 From AGH Require Import Base.Run Model.Schedule.
-From AGH Require Export Model.ScheduleText Model.BlockedSvcHttp.
+From AGH Require Export Model.ScheduleText Model.BlockedSvcHttp Model.BlockedSvcClient.
 Local Open Scope Z_scope.
 
 Definition mk (s e : Z) := {| dr_start := s; dr_end := e |}.
@@ -21,6 +21,17 @@ Definition err_code (e : range_err) : Z :=
 Definition sched_obs := (bytes * list text_day)%type.
 Definition http_obs :=
   (Z * list bytes * option sched_obs * list (Z * bool) * option (list bytes))%type.
+
+(** Request histories: a persistent client of the table is (uses its own
+    blocked services?, ids, zone name, ranges in ns).  A step is a request to
+    the global HTTP endpoints (with the observed status) or a DNS request:
+    the index of the client the lookup found, the instant the harness read
+    right before the call, the offsets at that instant of the zones involved
+    (by name), and the names in [setts.ServicesRules] afterwards. *)
+Definition client_desc := (bool * list bytes * bytes * list (Z * Z))%type.
+Inductive req_step :=
+  | RHttp (o : op) (status : Z)
+  | RReq (cl : option nat) (t : Z) (offs : list (bytes * Z)) (obs : list bytes).
 
 Inductive case :=
   (* instant (ns), zone offset at that instant (s), ranges (ns), observed Contains *)
@@ -52,7 +63,11 @@ Inductive case :=
      name, ranges in ns), what was observed before the first request and
      after every request *)
   | CHttp (known init_ids : list bytes) (init_zone : bytes) (init_days : list (Z * Z))
-      (instants : list Z) (obs0 : http_obs) (steps : list (op * http_obs)).
+      (instants : list Z) (obs0 : http_obs) (steps : list (op * http_obs))
+  (* history of HTTP requests and DNS requests against a real DNSFilter whose
+     client lookup answers from [clients] *)
+  | CReq (known init_ids : list bytes) (init_zone : bytes) (init_days : list (Z * Z))
+      (clients : list client_desc) (steps : list req_step).
 
 Definition eqb_zz (a b : Z * Z) := (fst a =? fst b) && (snd a =? snd b).
 
@@ -144,6 +159,52 @@ Definition http_init (ids : list bytes) (zone : bytes) (days : list (Z * Z)) : b
   {| bs_ids := ids;
      bs_sched := {| sc_zone := zone; sc_days := map (fun p => mk (fst p) (snd p)) days |} |}.
 
+Definition mk_client (d : client_desc) : client :=
+  let '(own, ids, zone, days) := d in
+  {| cl_use_own := own; cl_bsvc := http_init ids zone days |}.
+
+(** The tz database as far as a request needs it: the offsets the harness
+    read for the zones involved; a zone it did not name gets an offset no
+    zone has, so that a missing entry shows. *)
+Fixpoint off_lookup (offs : list (bytes * Z)) (z : bytes) : Z :=
+  match offs with
+  | [] => 99999999
+  | (k, o) :: offs => if eqb_bytes k z then o else off_lookup offs z
+  end.
+
+Definition req_client (clients : list client_desc) (cl : option nat) : option client :=
+  match cl with
+  | Some i => option_map mk_client (nth_error clients i)
+  | None => None
+  end.
+
+Definition req_model (known : list bytes) (clients : list client_desc) (s : bsvc)
+    (cl : option nat) (t : Z) (offs : list (bytes * Z)) : list bytes :=
+  request_services (fun z _ => off_lookup offs z) known s (req_client clients cl) t t.
+
+(** Index of the first step that differs, or -1. *)
+Fixpoint req_first_bad (known : list bytes) (clients : list client_desc) (s : bsvc)
+    (steps : list req_step) (i : Z) : Z :=
+  match steps with
+  | [] => -1
+  | RHttp o st :: steps =>
+      let (st', s') := step known o s in
+      if st' =? st then req_first_bad known clients s' steps (i + 1) else i
+  | RReq cl t offs obs :: steps =>
+      if eqb_list eqb_bytes (req_model known clients s cl t offs) obs
+      then req_first_bad known clients s steps (i + 1) else i
+  end.
+
+Fixpoint req_trace (known : list bytes) (clients : list client_desc) (s : bsvc)
+    (steps : list req_step) : list (Z * Z) :=
+  match steps with
+  | [] => []
+  | RHttp o st :: steps =>
+      let (st', s') := step known o s in (st', -1) :: req_trace known clients s' steps
+  | RReq cl t offs obs :: steps =>
+      (0, Z.of_nat (length (req_model known clients s cl t offs))) :: req_trace known clients s steps
+  end.
+
 Definition case_ok (c : case) : bool :=
   match c with
   | CContains t o w obs =>
@@ -172,6 +233,8 @@ Definition case_ok (c : case) : bool :=
       let s := http_init ids zone days in
       let (ok, cur) := http_obs_ok known instants st_ok s None o0 in
       ok && http_run_ok known instants s cur steps
+  | CReq known ids zone days clients steps =>
+      req_first_bad known clients (http_init ids zone days) steps 0 =? -1
   end.
 
 Definition mismatches := Base.Run.mismatches case_ok.
@@ -204,4 +267,7 @@ Definition explain (c : case) :=
       let (ok, cur) := http_obs_ok known instants st_ok s None o0 in
       ((if ok then http_first_bad known instants s cur steps 1 else 0),
        http_statuses known s steps)
+  | CReq known ids zone days clients steps =>
+      (req_first_bad known clients (http_init ids zone days) steps 0,
+       req_trace known clients (http_init ids zone days) steps)
   end.
